@@ -137,7 +137,7 @@ func (g *Gen) smallNum() V {
 
 func (g *Gen) str() V { return AStr(strPool[g.r.Intn(len(strPool))]) }
 
-func (g *Gen) tim() V { return ATime(g.r.Intn(len(g.U.times)), g.r.Intn(len(zoneTable))) }
+func (g *Gen) tim() V { return ATime(g.r.Intn(len(g.U.times)), g.r.Intn(genZones)) }
 
 // value of any type, nested to depth
 func (g *Gen) value(depth int) V {
@@ -246,6 +246,9 @@ func (g *Gen) doc(id V) V {
 		if g.chance(p) {
 			kv = append(kv, f, g.fieldValue(f))
 		}
+	}
+	if g.chance(0.06) { // a top-level field whose *name* contains a dot (not a nested path)
+		kv = append(kv, g.pick([]string{"x.y", "app.version", "n.a"}), g.smallNum())
 	}
 	return AObj(kv...)
 }
@@ -395,6 +398,16 @@ func (g *Gen) leaf() []interface{} {
 			} else {
 				list = append(list, g.operand(ff))
 			}
+		}
+		// listed elements may coincide: repeated literals, the same number in another representation
+		for len(list) > 0 && g.chance(0.3) {
+			e := toList(list[g.r.Intn(len(list))])
+			if e[0] == "lit" && toV(e[1])[0] == "num" && g.chance(0.5) {
+				v := toV(e[1])
+				reps := g.U.Reps(toInt(v[1]))
+				e = []interface{}{"lit", ANum(toInt(v[1]), reps[g.r.Intn(len(reps))])}
+			}
+			list = append(list, e)
 		}
 		return []interface{}{"un", "contains", B(ff), []interface{}{"list", list}}
 	case k < 94:
